@@ -484,22 +484,33 @@ func makeGenbankOriginParser(length int) genbankSubparser {
 			}
 			pars.Line(state, result)
 
+			// From here on the field is an ORIGIN block of the declared length
+			// followed by the record terminator, or the record is malformed: a
+			// failure must not backtrack into the unknown-field parser.
+			fail := func(err error) error {
+				state.Clear()
+				return err
+			}
+
 			if err := state.Request(toOriginLength(length)); err != nil {
-				return pars.NewError("not enough bytes in state", state.Position())
+				return fail(pars.NewError("not enough bytes in state", state.Position()))
 			}
 
 			p := state.Buffer()
 			if validateOrigin(p, length, state.Position()) == nil {
 				state.Advance()
-				gb.Origin = &Origin{p, false}
-				return nil
+			} else {
+				parser := slowGenBankOriginParser(length)
+				if err := parser(state, result); err != nil {
+					return fail(err)
+				}
+				p = result.Token
 			}
 
-			parser := slowGenBankOriginParser(length)
-			if err := parser(state, result); err != nil {
-				return err
+			next := pars.Dry(pars.Any(pars.Seq("//", pars.EOL), pars.End))
+			if next(state, pars.Void) != nil {
+				return fail(pars.NewError("expected `//` after the ORIGIN block", state.Position()))
 			}
-			p = result.Token
 
 			gb.Origin = &Origin{p, false}
 			return nil
